@@ -113,7 +113,7 @@ def reason_holds(v: View, reason, s):
     if reason == "NO_STRATEGY":
         return not v.strategy_exists(s.klass)
     if reason == "BUDGET_EXHAUSTED":
-        return any(c[2] is False for c in s.consumes)
+        return any(c[2] is False for c in s.consumes) or s.budget_full
     if reason == "MAX_ATTEMPTS_GLOBAL":
         return s.i >= cfg["max_attempts"]
     if reason == "SCHEDULED":
@@ -167,7 +167,7 @@ def o_permit(v: View, stats=None):
         if budget_cfg:
             if n_consume > 1:
                 yield "budget-consumed-twice", f"attempt {s.i}: {n_consume} consume() calls for one failed attempt"
-            if n_consume >= 1 and grants == 0:
+            if (n_consume >= 1 and grants == 0) or s.budget_full:
                 reasons.append("budget")
                 if s.retries or s.sleeps:
                     yield "waste:budget-refused", f"attempt {s.i}: budget refused yet retry event/sleep observed"
